@@ -284,15 +284,36 @@ fn gradient_case(rng: &mut Rng, idx: u64, out: &mut Out) {
     };
     let target: Vec<f32> = pred.iter().map(|p| *p as f32 + rng.f32_in(0.2, 1.0) * if rng.bool() { 1.0 } else { -1.0 }).collect();
     let tf: Vec<f64> = target.iter().map(|v| *v as f64).collect();
-    let net = match build(&cfg, Some(&params)) {
+    // every fifth case adds its last connection only after the network object has already run a
+    // forward and a backward pass (connect() on a used network must take effect everywhere)
+    let late = idx % 5 == 2 && !skips.is_empty();
+    let xin = tensor_of(cfg.input, &x);
+    let tt = Tensor::single(target.clone());
+    let built = if late {
+        let mut c0 = cfg.clone();
+        let (la, lb) = c0.skips.pop().unwrap();
+        build(&c0, Some(&params)).and_then(|mut n| {
+            guard(|| {
+                let (pre, post, maxp, fbs) = n.forward(&xin);
+                let (_, g) = neurons::objective::Function::create(lib_obj(Obj::MSE), None).loss(post.last().unwrap(), &tt);
+                let _ = n.verif_backward(g, &pre, &post, &maxp, fbs);
+                n.connect(la, lb);
+            })?;
+            Ok(n)
+        })
+    } else {
+        build(&cfg, Some(&params))
+    };
+    if late {
+        out.count("gradient_cases_whose_last_connection_is_added_after_a_backward_pass", 1);
+    }
+    let net = match built {
         Ok(n) => n,
         Err(m) => {
             out.viol("skip:gradient:create-panic", format!("{}: {}", cfg.describe(), short(&m, 160)), J::Null);
             return;
         }
     };
-    let xin = tensor_of(cfg.input, &x);
-    let tt = Tensor::single(target.clone());
     let lib = guard(|| {
         let (pre, post, maxp, fbs) = net.forward(&xin);
         let (_, g) = neurons::objective::Function::create(lib_obj(Obj::MSE), None).loss(post.last().unwrap(), &tt);
@@ -372,7 +393,7 @@ impl Monitor for C16 {
         vec![("values", tier.pick(90_000, 1_800_000)), ("bookkeeping", tier.pick(45_000, 900_000)), ("gradients", tier.pick(22_500, 450_000))]
     }
     fn rule(&self) -> &'static str {
-        "networks of depth 2..7 in which every layer input has the same element count (flat dense chains, spatial chains of 'same' convolutions / deconvolutions / 1x1 pools / deconvolution+pool pairs, mixed flat<->spatial chains on r*r elements, spatial chains whose shapes differ at equal element count via stride-2 convolutions / deconvolutions; every seventh network has some layers wrapped into feedback blocks so that blocks occur as sources and targets). values: 1..2 connections drawn from ALL index pairs a <= b with equal counts (sources and targets disjoint), accumulation = case index mod 5; predict vs reference network where layer b processes combine(ordinary input, input fed to a) (reshaped row-major), within the running f32 bound. bookkeeping: scripts of 2..4 connect() calls biased towards same-target, same-source and chained pairs; after every call the prediction must equal the reference containing exactly the accepted connections (either reading of 'input fed to a' for chains), a call with a new source and a new target must be accepted, a discarded earlier connection is identified by re-evaluating the reference without it. gradients: additive accumulation, hooked backward vs dual-number derivative of the MSE of the reference WITH the skips. Distinct = distinct (network, connections | script) descriptors."
+        "networks of depth 2..7 in which every layer input has the same element count (flat dense chains, spatial chains of 'same' convolutions / deconvolutions / 1x1 pools / deconvolution+pool pairs, mixed flat<->spatial chains on r*r elements, spatial chains whose shapes differ at equal element count via stride-2 convolutions / deconvolutions; every seventh network has some layers wrapped into feedback blocks so that blocks occur as sources and targets). values: 1..2 connections drawn from ALL index pairs a <= b with equal counts (sources and targets disjoint), accumulation = case index mod 5; predict vs reference network where layer b processes combine(ordinary input, input fed to a) (reshaped row-major), within the running f32 bound. bookkeeping: scripts of 2..4 connect() calls biased towards same-target, same-source and chained pairs; after every call the prediction must equal the reference containing exactly the accepted connections (either reading of 'input fed to a' for chains), a call with a new source and a new target must be accepted, a discarded earlier connection is identified by re-evaluating the reference without it. gradients: additive accumulation (every fifth case adds its last connection only after the network object has run a forward and a backward pass), hooked backward vs dual-number derivative of the MSE of the reference WITH the skips. Distinct = distinct (network, connections | script) descriptors."
     }
     fn assumptions(&self) -> Vec<&'static str> {
         vec!["chained connections (a target that is also a source): both the raw and the accumulated reading of 'the input that was fed to layer a' are accepted", "multiplicative/subtractive/mean/overwrite accumulations are only checked on values (the property claims gradients for additive accumulation only)"]
